@@ -288,8 +288,46 @@ func build64(m *set64) (w bitmap1024.Bit64) {
 	return
 }
 
+// build1024 makes the bitmap of a model set. Two thirds through the setters; otherwise (chosen
+// by the set's content) by loading its serialized form into a fresh bitmap or by storing the 16
+// words directly - a bitmap is its 16 words, however they got there.
 func build1024(m *set1024, useI32 bool) bitmap1024.Bit1024 {
 	b := bitmap1024.NewBit1024()
+	n := 0
+	for _, x := range m {
+		if x {
+			n++
+		}
+	}
+	switch (n + int(b2i(m[0])) + 2*int(b2i(m[1023]))) % 6 {
+	case 0: // dense or sparse encoding through Unmarshal
+		var buf []byte
+		if n >= 64 {
+			buf = make([]byte, 128)
+			for i, x := range m {
+				if x {
+					buf[i/8] |= 1 << (uint(i) % 8)
+				}
+			}
+		} else {
+			for i, x := range m {
+				if x {
+					buf = append(buf, byte(i), byte(i>>8))
+				}
+			}
+		}
+		if err := b.Unmarshal(buf); err != nil {
+			panic("harness: Unmarshal of a well-formed encoding failed: " + err.Error())
+		}
+		return b
+	case 1: // direct word stores
+		for i, x := range m {
+			if x {
+				b[i/64] |= bitmap1024.Bit64(1) << (uint(i) % 64)
+			}
+		}
+		return b
+	}
 	for i, x := range m {
 		if x {
 			if useI32 {
@@ -445,6 +483,10 @@ func iter1024Case(k *engine.Case) {
 		useI32 := r.Intn(2) == 0
 		b := build1024(&m, useI32)
 		t.add("b1024_shape_"+tag, 1)
+		if l, nl := b.Len(), b.NLen(); l != L || nl != 1024-L {
+			k.Fail("len-mismatch", "Bit1024 %s: Len=%d NLen=%d, expected %d/%d", fmtSet(mem), l, nl, L, 1024-L)
+			return
+		}
 
 		// per-word popcounts: n that ends exactly at / one around a word boundary of the
 		// forward and of the reverse chain (cursor/left bookkeeping)
@@ -555,4 +597,11 @@ func iter1024Case(k *engine.Case) {
 			}
 		}
 	}
+}
+
+func b2i(x bool) int {
+	if x {
+		return 1
+	}
+	return 0
 }
